@@ -211,6 +211,8 @@ func checkC13(c *Check) {
 		ruleXXHConsumption(c, p, "R13.10")
 		c.RuleDoc["R13.11"] = "the lazy initialisation in Write is governed by the running length being 0 alone"
 		ruleXXHLazyInit(c, p, "R13.11")
+		c.RuleDoc["R13.12"] = "= R09.3 (content part): what is fed to the content hash is the uncompressed source of the block being written, recorded unconditionally by Compress"
+		c.only(func(k string) bool { return strings.HasPrefix(k, "Write#contentchecksum") }, func() { ruleChecksumCoverage(c, p, "R13.12") })
 	}
 	checkPartition(c, "R13.4", "internal/xxh32", []string{"ChecksumZero", "update"}, []string{"gc"})
 }
@@ -650,8 +652,9 @@ func ruleObservationalCollapse(c *Check, rule string) {
 			for _, r := range *v.Referrers() {
 				switch y := r.(type) {
 				case *ssa.BinOp:
-					k, isK := constUint(y.Y)
-					if !(isK && k == 0 && (y.Op == token.GEQ || y.Op == token.LSS) && y.X == v) {
+					// any spelling of the sign test: v >= 0, v > -1, 0 <= v, v < 0, ...
+					geq, k, isH := signedHalfLine(y, v)
+					if !(isH && ((geq && k == 0) || (!geq && k == -1))) {
 						ok = false
 						why = append(why, "result compared as "+shortVal(y))
 					}
@@ -659,8 +662,8 @@ func ruleObservationalCollapse(c *Check, rule string) {
 					// returned only on the >= 0 edge
 					good := false
 					for _, l := range guardsOf(y.Block()) {
-						if b, isB := l.Cond.(*ssa.BinOp); isB && b.X == v {
-							if (b.Op == token.GEQ && l.Val) || (b.Op == token.LSS && !l.Val) {
+						if b, isB := l.Cond.(*ssa.BinOp); isB {
+							if geq, k, isH := signedHalfLine(b, v); isH && ((geq && k == 0 && l.Val) || (!geq && k == -1 && !l.Val)) {
 								good = true
 							}
 						}
@@ -744,4 +747,56 @@ func derivesFromFieldWide(v ssa.Value, field string) bool {
 		return true
 	})
 	return found
+}
+
+
+// signedHalfLine: the comparison b, when true, says v >= k (geq) or v <= k (!geq)
+// for the signed value v and a constant; ok is false for anything else.
+func signedHalfLine(b *ssa.BinOp, v ssa.Value) (geq bool, k int64, ok bool) {
+	cst := func(x ssa.Value) (int64, bool) {
+		c, isC := stripConv(x).(*ssa.Const)
+		if !isC || c.Value == nil || c.Value.Kind() != constant.Int {
+			return 0, false
+		}
+		return constant.Int64Val(c.Value)
+	}
+	op := b.Op
+	var kk int64
+	switch {
+	case b.X == v:
+		c, isK := cst(b.Y)
+		if !isK {
+			return false, 0, false
+		}
+		kk = c
+	case b.Y == v:
+		c, isK := cst(b.X)
+		if !isK {
+			return false, 0, false
+		}
+		kk = c
+		switch op { // k OP v  ->  v OP' k
+		case token.LSS:
+			op = token.GTR
+		case token.GTR:
+			op = token.LSS
+		case token.LEQ:
+			op = token.GEQ
+		case token.GEQ:
+			op = token.LEQ
+		}
+	default:
+		return false, 0, false
+	}
+	switch op {
+	case token.GEQ:
+		return true, kk, true
+	case token.GTR:
+		return true, kk + 1, true
+	case token.LEQ:
+		return false, kk, true
+	case token.LSS:
+		return false, kk - 1, true
+	}
+	return false, 0, false
 }
